@@ -104,17 +104,17 @@ theorem type2_sw (E : Engine α) (s s' : Switches) (h : AgreeOffPair s s') (pwf 
   unfold type2
   simp only [radType2_sw E s s', qClass_sw E s s' h]
 
-/-- shell-pair screen: when no per-l estimate is at or below the tolerance, switching the pair screen off changes nothing -/
+/-- shell-pair screen: when no per-l estimate is at or below the tolerance (NaN estimates count as not below), switching the pair screen off changes nothing -/
 theorem pairScreen_inactive (E : Engine α) (sw : Switches) (pwf : Nat → α → α) (pw : α → Nat → α) (maxPow : Nat) (euler sinh1 : α)
     (classes : Nat → Nat → Nat → Option (Gen.QClass × Option (Array (UTerm α))))
     (d : PairData α) (U : Ecp α) (sA sB : Shell α)
-    (hall : ∀ l : Nat, E.pairTol < (estimateType2 E pwf U sA sB d euler sinh1)[l]!) :
+    (hall : ∀ l : Nat, ¬ (estimateType2 E pwf U sA sB d euler sinh1)[l]! ≤ E.pairTol) :
     computeFromData E { sw with pairScreen := true } pwf pw maxPow euler sinh1 classes d U sA sB
       = computeFromData E { sw with pairScreen := false } pwf pw maxPow euler sinh1 classes d U sA sB := by
   have hag : AgreeOffPair { sw with pairScreen := true } { sw with pairScreen := false } := ⟨rfl, rfl, rfl, rfl, rfl⟩
   unfold computeFromData
   simp only [hall, type1_sw E _ _ hag.2.2.2.1, type2_sw E _ _ hag, Bool.not_true, Bool.not_false, Bool.false_or,
-    Bool.true_or, decide_true]
+    Bool.true_or, decide_true, decide_false]
 
 /-- the radial screen switched off is the only difference between the screened and the unscreened primitive: whenever the
 estimate exceeds the tolerance (or a closed form applies) both give the same value -/
